@@ -193,6 +193,11 @@ def extract_item(e):
     end = match_brace(t, s)
     item = t[s:end]
     item = rewrite(item, e.get("keep_pub", False))
+    for a, b in e.get("sig_subst", []):
+        # textual substitution in the signature (type erasure of reader type parameters)
+        if item.count(a) != 1:
+            raise ExtractError(f"lost anchor for signature substitution: `{a}` in {e['key']}")
+        item = item.replace(a, b)
     if e.get("generic_T"):
         # the enclosing impl's type parameter T is instantiated by an opaque stand-in type
         item = re.sub(r"\bT\b", e["generic_T"], item)
